@@ -82,7 +82,13 @@ class Report:
             if e.get("class") != klass:
                 continue
             where = e.get("where") or {}
-            if all((values or {}).get(k) == v for k, v in where.items()):
+            if not all((values or {}).get(k) == v for k, v in where.items()):
+                continue
+            # optional regular expressions over (string) values, e.g. the failure detail
+            import re
+
+            rxs = e.get("where_regex") or {}
+            if all(re.search(rx, str((values or {}).get(k, ""))) for k, rx in rxs.items()):
                 return e
         return None
 
